@@ -18,6 +18,7 @@ from photon_weave.photon_weave import Config
 from photon_weave.state.base_state import BaseState
 from photon_weave.state.composite_envelope import CompositeEnvelope
 from photon_weave.state.expansion_levels import ExpansionLevel
+from photon_weave._verif import announce as _verif_announce
 
 
 class CustomState(BaseState):
@@ -195,6 +196,7 @@ class CustomState(BaseState):
                 probabilities = jnp.abs(self.state.flatten()) ** 2
                 probabilities = probabilities.ravel()
                 assert jnp.isclose(sum(probabilities), 1)
+                _verif_announce("measure", self)
                 key = C.random_key
                 out = int(
                     jax.random.choice(
@@ -210,6 +212,7 @@ class CustomState(BaseState):
                 C = Config()
                 probabilities = jnp.diag(self.state).real
                 probabilities = probabilities / jnp.sum(probabilities)
+                _verif_announce("measure", self)
                 key = C.random_key
                 out = int(
                     jax.random.choice(
@@ -268,6 +271,7 @@ class CustomState(BaseState):
         )
         probabilities = probabilities / jnp.sum(probabilities)
 
+        _verif_announce("povm", self)
         key = C.random_key
         outcome = int(
             jax.random.choice(key, a=jnp.arange(len(operators)), p=probabilities)
